@@ -68,13 +68,14 @@ structure Reached (α : Type) where
   reach : α
 
 mutual
-/-- first loop of `optimal_deviations`: own nodes reached with positive probability -/
+/-- first loop of `optimal_deviations`: own nodes reached with positive probability; a node whose
+reach probability underflowed to zero (`reach <= 0.0` when it is popped) counts as unreached -/
 def collect : V α → α → List (Reached α)
   | .term _, _ => []
   | .nature ws ks, r => collectN ws ks r
   | .decide i ks, r => ⟨i, ks, r⟩ :: collectD ks r
 def collectN : List α → List (V α) → α → List (Reached α)
-  | w :: ws, k :: ks, r => (if 0 < w then collect k (w * r) else []) ++ collectN ws ks r
+  | w :: ws, k :: ks, r => (if 0 < w && 0 < w * r then collect k (w * r) else []) ++ collectN ws ks r
   | _, _, _ => []
 def collectD : List (V α) → α → List (Reached α)
   | [], _ => []
